@@ -12,6 +12,9 @@ Record case := mkCase
     cprobes : list (Z * Z);       (* per probe: hashFunc(repr(v)), hashFunc(innerRepr(v)) *)
     cgets : list (list Z);        (* observed Get per probe, before any op and after each op:
                                      value id | -1 none | -2 panic | -3 a value never added *)
+    cfinal : bool;                (* cluster cases (cache.New / kv.NewStore): every row of [cgets] is
+                                     an observation of the FINAL ring — the server read by Get,
+                                     written by Set, reached by the multi-key Del, per key *)
     cstrict : bool }.             (* evaluate the order clauses (history independence, moves) even
                                      though the universe has collisions: used by the corpus
                                      histories that exhibit the known finding
@@ -43,7 +46,13 @@ Definition model_obs (c : case) : list (list Z) :=
   model_gets (cvh c) (cR c) init (cops c) (cprobes c).
 
 (* the model reproduces exactly what the implementation answered *)
-Definition agrees (c : case) : bool := list_eqb zs_eqb (model_obs c) (cgets c).
+Definition final_state (c : case) : state := fold_left (step (vh_of (cvh c)) (cR c)) (cops c) init.
+
+Definition agrees (c : case) : bool :=
+  if cfinal c then
+    let g := gets_of (cvh c) (final_state c) (cprobes c) in
+    negb (match cgets c with [] => true | _ => false end) && forallb (zs_eqb g) (cgets c)
+  else list_eqb zs_eqb (model_obs c) (cgets c).
 
 (* ---- the property on the observed answers ------------------------------------
    Stated against the specification "node |-> (replica count, value)", not against
@@ -136,6 +145,10 @@ Fixpoint nodup_sorted (l : list Z) : bool :=
 Definition collision_free (t : list (Z * list Z)) : bool :=
   nodup_sorted (sort_z (flat_map snd t)).
 
+(* the table is a function on the universe: one row per repr, R hashes per row *)
+Definition table_ok (t : list (Z * list Z)) (R : Z) : bool :=
+  nodup_sorted (sort_z (map fst t)) && forallb (fun kr => Z.of_nat (length (snd kr)) =? R) t.
+
 (* an operation on node n moves a key only to or from n *)
 Definition moved_ok (n : Z) (mb ma : amap) (b a : Z) : bool :=
   (a =? b) ||
@@ -192,8 +205,17 @@ Definition core_ok (c : case) : bool :=
   | [] => false
   end.
 
+(* [cf] = the hypothesis of the collision-free theorems holds for this case:
+   ProofsB.collision_free_spec turns it into [collision_free_on (vh_of (cvh c)) (cR c) universe] *)
+Definition final_map (c : case) : amap := fold_left (a_step (cR c)) (cops c) [].
+
 Definition prop_ok (c : case) : bool :=
-  let cf := collision_free (cvh c) in
+  let cf := collision_free (cvh c) && table_ok (cvh c) (cR c) in
+  if cfinal c then
+    (* a key is served — read, written, deleted — by the node the ring designates *)
+    negb (match cgets c with [] => true | _ => false end) &&
+    forallb (step_ok (cvh c) cf (cprobes c) (final_map c)) (cgets c)
+  else
   match cgets c with
   | g0 :: obs => step_ok (cvh c) cf (cprobes c) [] g0 &&
                  hist_ok (cvh c) (cR c) cf (cf || cstrict c) (cprobes c) [] g0 [([], g0)] (cops c) obs
